@@ -160,6 +160,7 @@ def build_flow(cfg, seed):
             flow.fit(xp.asarray(x, dtype=flow.dtype), **fit_kw)
         else:
             flow.fit_data_transform(xp.asarray(x, dtype=flow.dtype))
+        flow._sim_aspire = A0  # run_case also draws through Aspire.sample_flow
         return flow, params, bounds, lo, hi
     if cfg["backend"] == "zuko":
         import array_api_compat.torch as xp
@@ -218,8 +219,16 @@ def run_case(case, workdir):
     evaluations = 0
     # ---- (a) + (b): pointwise agreement and bounds on several batches
     batches = []
+    A0 = getattr(flow, "_sim_aspire", None)
     for b in range(4):
-        x, lq = flow.sample_and_log_prob(256)
+        if A0 is not None and b == 3:
+            # the instance's own way of handing out draws together with their proposal density
+            smp0 = A0.sample_flow(256)
+            x, lq = smp0.x, smp0.log_q
+            probes["draws_through_Aspire.sample_flow"] = 256
+            where = {**where, "route": "Aspire.sample_flow"}
+        else:
+            x, lq = flow.sample_and_log_prob(256)
         xn = np.asarray(to_np(x), dtype=np.float64)
         lqn = np.asarray(to_np(lq), dtype=np.float64)
         lpn = np.asarray(to_np(flow.log_prob(x)), dtype=np.float64)
